@@ -148,27 +148,24 @@ def apply_unified_diff(files, diff_text):
         i += 1
     for p in patches:
         src_lines = files[p['path']].split('\n')
-        res = []
-        pos = 0
+        shift = 0
         for h in p['hunks']:
-            start = h['old_start'] - 1
-            res.extend(src_lines[pos:start])
-            pos = start
-            for hl in h['lines']:
-                tag, body = (hl[:1], hl[1:]) if hl else (' ', '')
-                if tag == ' ':
-                    if src_lines[pos] != body:
-                        raise ValueError('context mismatch in %s at line %d' % (p['path'], pos + 1))
-                    res.append(body)
-                    pos += 1
-                elif tag == '-':
-                    if src_lines[pos] != body:
-                        raise ValueError('removal mismatch in %s at line %d' % (p['path'], pos + 1))
-                    pos += 1
-                elif tag == '+':
-                    res.append(body)
-        res.extend(src_lines[pos:])
-        out[p['path']] = '\n'.join(res)
+            old_block = [hl[1:] for hl in h['lines'] if hl[:1] in (' ', '-') or hl == '']
+            new_block = [hl[1:] for hl in h['lines'] if hl[:1] in (' ', '+') or hl == '']
+            want = h['old_start'] - 1 + shift
+            pos = None
+            for delta in range(0, 400):          # like git apply: accept the hunk at an offset when the file has moved
+                for cand in (want + delta, want - delta):
+                    if 0 <= cand <= len(src_lines) - len(old_block) and src_lines[cand:cand + len(old_block)] == old_block:
+                        pos = cand
+                        break
+                if pos is not None:
+                    break
+            if pos is None:
+                raise ValueError('hunk at line %d of %s does not match the current file' % (h['old_start'], p['path']))
+            src_lines[pos:pos + len(old_block)] = new_block
+            shift += len(new_block) - len(old_block)
+        out[p['path']] = '\n'.join(src_lines)
     return out
 
 
